@@ -309,7 +309,7 @@ func (c *Ctx) Finish() int {
 	}
 	for k, s := range c.sets {
 		obs[k+"#distinct"] = len(s)
-		if len(s) <= 40 {
+		if len(s) <= 160 {
 			var ms []string
 			for m := range s {
 				ms = append(ms, m)
